@@ -988,6 +988,7 @@ class Ctx:
         self.oracle_mode = False
         self.concrete_env = None
         self.vacuity_guard = True
+        self.unknown_prefixes: set = set()
         self.reset_path([])
         self.exploring = False
 
@@ -997,7 +998,9 @@ class Ctx:
         self.pos = 0
         self.pending = []
         self.notes = []
-        self.maybe_infeasible = False
+        # a branch whose feasibility the solver could not decide when it was queued stays "maybe infeasible" when it is run
+        up = getattr(self, 'unknown_prefixes', None)
+        self.maybe_infeasible = bool(up) and any(tuple(self.decisions[:k]) in up for k in range(1, len(self.decisions) + 1))
 
     # -- facts
     def assume(self, b):
@@ -1050,15 +1053,19 @@ class Ctx:
         rf = solve([*base, ~b], timeout_ms=self.fork_timeout_ms, want_model=False).status
         if rt == 'unsat' and rf == 'unsat':
             raise _Abort('path infeasible')
-        if rt == 'unknown' or rf == 'unknown':
+        if rt == 'unknown':
             self.maybe_infeasible = True
         if rt == 'unsat':
             v = False
+            if rf == 'unknown':
+                self.maybe_infeasible = True
         elif rf == 'unsat':
             v = True
         else:
             v = True
             self.pending.append([*self.decisions, False])
+            if rf == 'unknown':
+                self.unknown_prefixes.add(tuple([*self.decisions, False]))
         self.decisions.append(v)
         self.pos += 1
         self.pc.append(b if v else ~b)
@@ -1119,6 +1126,7 @@ def explore(fn, max_paths=256, catch=(Exception,)):
     work = [[]]
     out = []
     CTX.exploring = True
+    CTX.unknown_prefixes = set()
     try:
         while work:
             if len(out) >= max_paths:
@@ -1140,6 +1148,20 @@ def explore(fn, max_paths=256, catch=(Exception,)):
                     traceback.print_exc()
                 p = Path(list(CTX.decisions), list(CTX.pc), exc=e, notes=CTX.notes, maybe=CTX.maybe_infeasible)
             work.extend(CTX.pending)
+            if p.maybe_infeasible:
+                # a fork of this path was undecided within the fork budget: ask once more about the complete path condition
+                pend_ = list(CTX.pending)
+                ex_ = CTX.exploring
+                CTX.exploring = False
+                try:
+                    r_ = solve([*CTX.assumptions, *p.pc], timeout_ms=max(4 * CTX.fork_timeout_ms, 20000), want_model=False).status
+                finally:
+                    CTX.exploring = ex_
+                    CTX.pending = pend_
+                if r_ == 'unsat':
+                    continue  # the path does not exist
+                if r_ == 'sat':
+                    p.maybe_infeasible = False
             out.append(p)
     finally:
         CTX.exploring = False
